@@ -54,6 +54,10 @@ X_IDS = [100, 101, 102, 103, 104]          # ids the invalid items aim at
 Y_IDS = [105, 106, 107, 108, 109]          # ids the valid items of mixed streams use
 CENSUS = "bq t=ta ids=1,2,3,%s emb=1" % ",".join(str(x) for x in X_IDS + Y_IDS)
 DIM = 3
+# second census: a wide search (k = 1000 > collection size) - it also shows documents stored under ids the point reads refuse
+# (id 0, out-of-range ids), which BulkQuery cannot name
+CENSUS2 = "search t=ta q=1065353216,1065353216,1065353216 k=1000 ns=- f=- emb=0 ef=0"
+LEGIT_IDS = {"1", "2", "3"} | {str(x) for x in X_IDS + Y_IDS}
 
 
 def _vec(rng, kind):
@@ -148,7 +152,8 @@ def rpc_case(rng, n):
             ops.append("bdf t=ta f=%s ns=- #kind=deep" % _deep(rng.choice([60, 99, 120, 200]), leaf="exact,61,7a7a"))
         ops.append("q t=ta id=1 ns=- emb=0")           # keeps serving
         ops.append(CENSUS)
-    ops += ["restart", CENSUS, "stop"]
+        ops.append(CENSUS2)
+    ops += ["restart", CENSUS, CENSUS2, "stop"]
     return ops
 
 
@@ -162,6 +167,16 @@ def rpc_oracle(case):
             break
         op = l.split(" ")[0]
         kind = l.split("#kind=")[1] if "#kind=" in l else None
+        if l == CENSUS2:
+            m = re.search(r"res=(\S+)", r)
+            ids = {it.split("~")[0] for it in (m.group(1).split(";") if m and m.group(1) != "-" else [])}
+            alien = sorted(ids - LEGIT_IDS)
+            if alien:
+                prev = [x for x in raw[:i] if "#kind=" in x]
+                fails.append(("c15-refused-with-effect", i, "a wide search shows document(s) %s: no valid request could have stored such an id "
+                              "(last boundary request: `%s`)" % (alien, (prev[-1] if prev else "-")[:300])))
+                break
+            continue
         if l == CENSUS:
             if last_census is not None and last_census[0] != r:
                 j, prev = last_census[1], raw[last_census[1] + 1:i]
@@ -187,6 +202,14 @@ def rpc_oracle(case):
                                       "was invalid: census `%s` -> `%s`" % (req[:300], ans, bad, last_census[0][:300], r[:300])))
             last_census = (r, i)
             continue
+        if op in ("bins", "bload") and kind and r.startswith("ok"):
+            # the stream's own counters: every item is either stored or failed, and only valid items can be stored
+            m1, m2 = re.search(r" n=(\d+)", r), re.search(r" failed=(\d+)", r)
+            kinds_ = kind.split(",")
+            can = sum(1 for kk in kinds_ if kk in ("ok", "zero", "subn", "fmax"))
+            if m1 and m2 and (int(m1.group(1)) + int(m2.group(1)) != len(kinds_) or int(m1.group(1)) > can):
+                fails.append(("c15-refused-with-effect", i, "`%s` answers `%s`: %d item(s), at most %d valid - a refused item is counted as stored "
+                              "(or an item is counted twice)" % (l[:300], r[:120], len(kinds_), can)))
         if op == "bsearch" and r.startswith("ok"):
             parts = [] if r == "ok -" else r[3:].split(" | ")
             nq = len(re.search(r"qs=(\S+)", l).group(1).split("/"))
